@@ -7,7 +7,8 @@ package main
 //
 //   cost(selection set)  = sum of the costs of its selections                      (saturating)
 //   cost(fragment)       = cost of its selection set (inline, or the named fragment's body)
-//   cost(field on object O) = custom[O.field](children, args)  if a custom function is set and
+//   cost(field on object O) = custom[O.field](children, args)  if a custom function is set (for
+//                             the Go field the schema field is bound to) and
 //                             its value is not below the children's cost,
 //                             else 1 + children                                    (saturating)
 //   cost(field on interface I) = max over the object types implementing I of cost(field on O)
@@ -176,7 +177,8 @@ func (r *refEval) field(parent string, n *Node, child *big.Int) *big.Int {
 }
 
 func (r *refEval) objField(object string, n *Node, child *big.Int) *big.Int {
-	if fn, ok := r.as[object+"."+n.Name]; ok && fn != FnNone && n.Name != "__typename" {
+	// the custom function is configured per Go field: schema fields sharing one are all costed by it
+	if fn, ok := r.as[canon(object+"."+n.Name)]; ok && fn != FnNone && n.Name != "__typename" {
 		var x *big.Int
 		ylen := 0
 		if def, ok := argDefault[object+"."+n.Name]; ok {
